@@ -489,10 +489,17 @@ void rfbMakeRichCursorFromXCursor(rfbScreenInfoPtr rfbScreen,rfbCursorPtr cursor
       fore+=4-bpp;
    }
 
-   background=(uint32_t)cursor->backRed<<format->redShift|
-     (uint32_t)cursor->backGreen<<format->greenShift|(uint32_t)cursor->backBlue<<format->blueShift;
-   foreground=(uint32_t)cursor->foreRed<<format->redShift|
-     (uint32_t)cursor->foreGreen<<format->greenShift|(uint32_t)cursor->foreBlue<<format->blueShift;
+   /* a 16-bit colour component means the intensity comp/65535: scale it to the channel
+    * (same rule as rfbMakeXCursorFromRichCursor); shifting it unscaled spills into the
+    * neighbouring channels */
+#define CURSOR_CHANNEL(max,comp,shift) ((((uint32_t)(max)*(uint32_t)(comp))/0xffff)<<(shift))
+   background=CURSOR_CHANNEL(format->redMax,cursor->backRed,format->redShift)|
+     CURSOR_CHANNEL(format->greenMax,cursor->backGreen,format->greenShift)|
+     CURSOR_CHANNEL(format->blueMax,cursor->backBlue,format->blueShift);
+   foreground=CURSOR_CHANNEL(format->redMax,cursor->foreRed,format->redShift)|
+     CURSOR_CHANNEL(format->greenMax,cursor->foreGreen,format->greenShift)|
+     CURSOR_CHANNEL(format->blueMax,cursor->foreBlue,format->blueShift);
+#undef CURSOR_CHANNEL
    
    for(j=0;j<cursor->height;j++)
      for(i=0,bit=0x80;i<cursor->width;i++,bit=(bit&1)?0x80:bit>>1,cp+=bpp)
